@@ -56,7 +56,7 @@ Definition ex_P : params := mkParams 100000 1000000 true 16 true 50 true true 52
 Definition ex_L : lview :=
   mkLV [(1, mkAcct 5000000 0); (2, mkAcct 300000 0); (3, mkAcct 150000 0); (13, mkAcct 1500000 0); (14, mkAcct 100000 0)]
        [90] 1000 7 1 1 2000000 13 14.
-Definition ex_tx (id s r amt cl fee : N) : stib := (mkTxn id s r amt cl fee 8 20 true 200, ad0).
+Definition ex_tx (id s r amt cl fee : N) : stib := (mkTxn id s r amt cl fee 8 20 true 200 true, ad0).
 Definition ex_pool : list group :=
   [ mkGroup [ex_tx 1 1 2 5000 0 1000] true true true;            (* accepted *)
     mkGroup [ex_tx 2 3 1 900000 0 1000] true true true;          (* overspend: dropped *)
